@@ -138,6 +138,8 @@ def main():
         def one(sid):
             dst = os.path.join(VERIF, "seeded", sid)
             meta = json.load(open(os.path.join(dst, "meta.json")))
+            if meta.get("obsolete"):
+                return sid, {"error": "obsolete (no longer a defect on the current tree)"}
             res = run_checks(os.path.join(dst, "patch.diff"), meta["checked_properties"], tier)
             meta.setdefault("check_results", {})[tier] = res
             json.dump(meta, open(os.path.join(dst, "meta.json"), "w"), indent=1)
@@ -155,10 +157,12 @@ def main():
             m = json.load(open(os.path.join(dst, "meta.json")))
             q = m.get("check_results", {}).get("quick", {})
             now = {p: ("ALARM" if r.get("exit") == 1 else "quiet" if r.get("exit") == 0 else "exit%s" % r.get("exit")) for p, r in q.items()} if "error" not in q else q
+            if m.get("obsolete"): now = {"obsolete": m["obsolete"][:120]}
             rnd = m.get("round") or (3 if "-r3" in sid else 2 if "-r2" in sid else 1)
             idx.append({"id": sid, "round": rnd, "property": m.get("breaks_property"), "needs": (m.get("needs") or "")[:300], "first_run": m.get("first_run"), "now": now})
         json.dump(idx, open(os.path.join(VERIF, "seeded", "INDEX.json"), "w"), indent=1)
         caught = sum(1 for e in idx if isinstance(e["now"], dict) and "ALARM" in e["now"].values())
+        print("%d obsolete" % sum(1 for e in idx if isinstance(e["now"], dict) and "obsolete" in e["now"]))
         print("%d seeds indexed, %d currently raise an alarm in at least one check" % (len(idx), caught))
 
 main()
